@@ -55,6 +55,12 @@ def gen_case(rng, tier, i):
     case['Hy'] = float(rng.choice([0.0, 1.0, rng.uniform(-1, 1)]))
     case['Hx'] = float(rng.uniform(-0.5, 0.5)) if rel == 'mirror' else 0.0
     K = len(spec['surfaces'])
+    if rel == 'mirror' and len(spec['fields']) > 1 and rng.random() < 0.3:
+        # vignetting factors on the off-axis fields: they depend on the field HEIGHT, so the mirrored field gets the same
+        for f_ in spec['fields']:
+            if f_[0] != 0:
+                f_[1], f_[2] = round(float(rng.uniform(0.05, 0.4)), 4), round(float(rng.uniform(0.05, 0.4)), 4)
+        case['vig'] = True
     if rel == 'edited':
         case['edits'] = L.gen_edits(rng, spec)
         if not case['edits']:
@@ -107,6 +113,8 @@ def gen_case(rng, tier, i):
                     s_['aperture'] = {'r_max': rmax}
                     if rng.random() < 0.3:
                         s_['aperture']['r_min'] = 0.2 * rmax
+                        if rng.random() < 0.4:
+                            s_['aperture']['r_max'] = 'inf'      # a pure central obscuration (no outer rim)
     return case
 
 
@@ -124,7 +132,7 @@ def scaled_spec(spec, s):
             if su.get(q):
                 su[q] = su[q] * s
         if su.get('aperture'):
-            su['aperture'] = {k_: v_ * s for k_, v_ in su['aperture'].items()}
+            su['aperture'] = {k_: (v_ if v_ == 'inf' else v_ * s) for k_, v_ in su['aperture'].items()}
     if sp['aperture'][0] == 'EPD':
         sp['aperture'] = ['EPD', sp['aperture'][1] * s]
     if sp['field_type'] == 'object_height':
